@@ -107,3 +107,14 @@ Theorem C12_delivered_below_limit :
   forall (g : grammar) (aut : automaton), build g = Some aut -> length aut < 2000.
 Proof. exact LR0Limit.build_some_below_limit. Qed.
 Print Assumptions C12_delivered_below_limit.
+
+From YG Require Import LRBase CompleteDriver LR0Build Resolve Pipeline PipelineRun Front WfGrammar YParser EndToEnd FrontWf ParsedNames EndToEndWf.
+Close Scope Z_scope.
+Open Scope nat_scope.
+
+(* what the front end delivers when it does not refuse: a grammar object whose rule 0 is start -> S, whose right-hand sides use symbols of the file only and whose end marker heads no rule *)
+Theorem C12_delivered_is_wellformed :
+  forall (s : list Ascii.ascii) (b : built) (t : tables),
+         generate_text s = GOk b t -> wf_gi (b_gi b) = true.
+Proof. exact EndToEndWf.text_wf. Qed.
+Print Assumptions C12_delivered_is_wellformed.
